@@ -9,10 +9,12 @@ INTS = [0, 1, 2, 3, 5, 7, -1, -4, 10, 12]
 STRS = ["a", "b c", "dd", "é", "x", ""]
 SKEYS = ["a", "b c", "k", "é"]
 IKEYS = [0, 1, -1, 7]
-LIST_T = ["li", "ls", "lo", "ln"]
-MAP_T = ["msi", "mis", "msl"]
+LIST_T = ["li", "ls", "lo", "ln", "lb", "lg"]
+BIGS = [0, 5, 7, -3, 99999999999, -99999999999]
+MAP_T = ["msi", "mis", "msl", "mbs"]
 TYPE_SRC = {"li": "[int...]", "ls": "[str...]", "lo": "[int?...]", "ln": "[[int...]...]",
-            "msi": "map[str, int]", "mis": "map[int, str]", "msl": "map[str, [int...]]"}
+            "msi": "map[str, int]", "mis": "map[int, str]", "msl": "map[str, [int...]]", "mbs": "map[bool, str]",
+            "lb": "[bool...]", "lg": "[bigint...]"}
 
 CALLBACKS = {
     # name: (param type, result type, source body, python model taking (x, state) -> result)
@@ -31,6 +33,13 @@ def idx(i):
     """Source text of an index: a negative literal index is rejected at compile time, so the
     run-time path is reached through a variable."""
     return "ineg" if i == -1 else lit(i)
+
+
+def elit(t, v):
+    """Source literal of an element of a container of type t."""
+    if t == "lg":
+        return "B%d" % v if v >= 0 else "(B0 - B%d)" % -v      # `-B3` is typed int by the compiler
+    return lit(v)
 
 
 class Obj:
@@ -95,6 +104,8 @@ class Interp:
         """Source literal producing a fresh container equal to o (nested inner lists fresh as well)."""
         if o.t == "ln":
             return "[" + ", ".join(lit(x.data) for x in o.data) + "]"
+        if o.t == "lg":
+            return "[" + ", ".join(elit("lg", x) for x in o.data) + "]"
         return lit(o.data)
 
     def need_cb(self, name):
@@ -223,6 +234,10 @@ class Interp:
             return isinstance(v, str)
         if t == "lo":
             return v is None or (isinstance(v, int) and not isinstance(v, bool))
+        if t == "lb":
+            return isinstance(v, bool)
+        if t == "lg":
+            return isinstance(v, int) and not isinstance(v, bool)
         return False
 
     def apply_list(self, op, a, an):
@@ -246,7 +261,7 @@ class Interp:
                 return True
             if not self.elem_ok(a.t, op.get("v")):
                 return False
-            em.code("%s.push(%s)" % (an, lit(op["v"])))
+            em.code("%s.push(%s)" % (an, elit(a.t, op["v"])))
             a.data.append(op["v"])
             return True
         if k == "push_from":
@@ -294,21 +309,21 @@ class Interp:
             i, v = op["i"], op.get("v")
             if a.t == "ln" or not self.elem_ok(a.t, v):
                 return False
-            em.code("%s[%s] = %s" % (an, idx(i), lit(v)))
+            em.code("%s[%s] = %s" % (an, idx(i), elit(a.t, v)))
             if i < 0 or i >= n:
                 raise Stop("index assignment %d out of range (len %d)" % (i, n))
             a.data[i] = v
             return True
         if k == "opassign":
             i, v = op["i"], op.get("v")
-            if a.t not in ("li", "ls") or not self.elem_ok(a.t, v):
+            if a.t not in ("li", "ls", "lg") or not self.elem_ok(a.t, v):
                 return False
             sym = op.get("sym", "+")
             if a.t == "ls" and sym != "+":
                 return False
             if sym in ("/", "%") and v == 0:
                 return False
-            em.code("%s[%s] %s= %s" % (an, idx(i), sym, lit(v)))
+            em.code("%s[%s] %s= %s" % (an, idx(i), sym, elit(a.t, v)))
             if i < 0 or i >= n:
                 raise Stop("index op-assignment %d out of range (len %d)" % (i, n))
             x = a.data[i]
@@ -359,7 +374,7 @@ class Interp:
             v = op.get("v")
             if a.t == "ln" or not self.elem_ok(a.t, v):
                 return False
-            em.code("print %s.index_of(%s)" % (an, lit(v)))
+            em.code("print %s.index_of(%s)" % (an, elit(a.t, v)))
             em.out(str(a.data.index(v)) if v in a.data else "nil")
             return True
         if k == "eq":
@@ -458,7 +473,12 @@ class Interp:
             return self.apply_msl(op, a, an)
         k = op["op"]
         em = self.em
-        kt_ok = (lambda x: isinstance(x, str)) if a.t == "msi" else (lambda x: isinstance(x, int) and not isinstance(x, bool))
+        if a.t == "mbs":
+            kt_ok = lambda x: isinstance(x, bool)
+        elif a.t == "msi":
+            kt_ok = lambda x: isinstance(x, str)
+        else:
+            kt_ok = lambda x: isinstance(x, int) and not isinstance(x, bool)
         vt_ok = (lambda x: isinstance(x, int) and not isinstance(x, bool)) if a.t == "msi" else (lambda x: isinstance(x, str))
         key = op.get("k")
         if k in ("mread", "mwrite", "mopassign", "replace", "mremove", "contains") and not kt_ok(key):
@@ -545,7 +565,7 @@ def gen_op(rng, it):
     lists = [x for x in names if it.vars[x].t in LIST_T]
     maps = [x for x in names if it.vars[x].t in MAP_T]
     if not names or (len(names) < 3 and rng.chance(1, 3)):
-        t = rng.weighted([("li", 4), ("ls", 2), ("lo", 2), ("ln", 2), ("msi", 3), ("mis", 2), ("msl", 2)])
+        t = rng.weighted([("li", 4), ("ls", 2), ("lo", 2), ("ln", 2), ("msi", 3), ("mis", 2), ("msl", 2), ("lb", 1), ("lg", 1), ("mbs", 1)])
         if t == "li":
             init = [rng.choice(INTS) for _ in range(rng.range(0, 4))]
         elif t == "ls":
@@ -554,6 +574,12 @@ def gen_op(rng, it):
             init = [rng.choice(INTS + [None, None]) for _ in range(rng.range(0, 4))]
         elif t == "ln":
             init = [[rng.choice(INTS) for _ in range(rng.range(1, 3))] for _ in range(rng.range(0, 3))]
+        elif t == "lb":
+            init = [rng.chance(1, 2) for _ in range(rng.range(0, 3))]
+        elif t == "lg":
+            init = [rng.choice(BIGS) for _ in range(rng.range(0, 3))]
+        elif t == "mbs":
+            init = [[kk, rng.choice(STRS)] for kk in rng.sample([True, False], rng.range(0, 2))]
         elif t == "msl":
             init = []
         elif t == "msi":
@@ -580,7 +606,11 @@ def gen_op(rng, it):
                 return {"op": "len", "a": a}
             return {"op": kind, "a": a, "b": rng.choice(cands), "i": rng.below(8)}
         if kind in ("push", "write", "opassign", "index_of", "push_fn"):
-            if o.t == "ls":
+            if o.t == "lb":
+                op["v"] = rng.chance(1, 2)
+            elif o.t == "lg":
+                op["v"] = rng.choice(BIGS[:4] + [2, 3])
+            elif o.t == "ls":
                 op["v"] = rng.choice(STRS)
             elif o.t == "lo":
                 op["v"] = rng.choice(INTS + [None])
@@ -593,7 +623,7 @@ def gen_op(rng, it):
             else:
                 op["v"] = rng.choice(INTS)
             if kind == "opassign":
-                op["sym"] = rng.choice(["+", "+", "-", "*", "/", "%"]) if o.t == "li" else "+"
+                op["sym"] = rng.choice(["+", "+", "-", "*", "/", "%"]) if o.t in ("li", "lg") else "+"
                 if op["sym"] in ("/", "%") and op["v"] == 0:
                     op["v"] = 3
             if kind == "push_fn" and n == 0:
@@ -630,7 +660,10 @@ def gen_op(rng, it):
         if not cands or o.t != "msi":
             return {"op": "len", "a": a}
         return {"op": kind, "a": a, "b": rng.choice(cands), "i": rng.below(8), "k": rng.choice(SKEYS)}
-    if o.t == "msi":
+    if o.t == "mbs":
+        op["k"] = rng.chance(1, 2)
+        op["v"] = rng.choice(STRS)
+    elif o.t == "msi":
         op["k"] = rng.choice(SKEYS)
         op["v"] = rng.choice(INTS)
     else:
